@@ -19,15 +19,11 @@ func init() {
 			Kind: slip.MacroSymbol,
 			Name: "setf",
 			Args: []*slip.DocArg{
+				{Name: "&rest"},
 				{
-					Name: "place",
-					Type: "place",
-					Text: "The symbol or place to bind to the _value_.",
-				},
-				{
-					Name: "value",
+					Name: "pairs",
 					Type: "object",
-					Text: "The value to assign to _symbol.",
+					Text: "Alternating _place_ and _value_ arguments. Each _place_ is assigned the _value_ that follows it.",
 				},
 			},
 			Return: "object",
